@@ -188,6 +188,12 @@ def family():
     out.append((spec_s, [{'t': 'RenameAppLabel', 'old': 'vapp', 'new': 'lib', 'legacy': None, 'models': None}]))
     out.append((spec_s, [rm('Category', 'Section'),
                          {'t': 'RenameAppLabel', 'old': 'vapp', 'new': 'lib', 'legacy': None, 'models': ['Section']}]))
+    # the referring app is managed by Django's migrations (its signature is stored all the same, and its relations are
+    # resolved through it): its references follow a rename like any other
+    spec_m = copy.deepcopy(spec)
+    spec_m['apps'][1]['upgrade_method'] = 'migrations'
+    out.append((spec_m, [rm('Category', 'Section')]))
+    out.append((spec_m, [rm('Category', 'Section'), rm('Item', 'Product')]))
     # an app installed under a custom label goes back to the label it used to have (its own legacy label)
     spec_own = copy.deepcopy(spec)
     spec_own['apps'][0]['legacy'] = 'core'
